@@ -26,13 +26,44 @@ def get_port(self, name, create_dynamically=False):
     raises(ValueError, True)
 
 
-@contract('plumpy.ports.Port.validate', assumed=True, dispatch='static')
+@spec
+def port_accepts_shape(port, value):
+    """the part of a port's verdict that does not depend on the validator: a missing value only if the port is not required,
+    a supplied one only if it has the declared type"""
+    return ((value is not plumpy.ports.UNSPECIFIED or port._required is False or not truthy(port._required))
+            and (value is plumpy.ports.UNSPECIFIED or port._valid_type is None or isinstance_sym(value, port._valid_type)))
+
+
+@spec
+def wf_port(p):
+    """shape of a port: it has a name; its validator, if any, is user code (a callable object that is not one of plumpy's functions)"""
+    return is_str(p._name) and (p._validator is None or (is_heap_obj(p._validator) and not is_function(p._validator)))
+
+
+@contract('plumpy.ports.Port.validate', dispatch='static', props=['C11', 'C12'])
 def port_validate(self, value, breadcrumbs=()):
-    """ASSUMED (C11): the verdict of the port on a value: None (accepted) or a PortValidationError; validators are user code"""
+    """the verdict of a port on a value: None (accepted) or a PortValidationError.  Accepted exactly when: a missing value
+    and the port is not required; or a supplied value of the declared type for which the validator (user code, called once
+    with the value -- and the port, for two-argument validators) returns None.  A missing value is never shown to the
+    validator"""
+    requires(isinstance(self, Port) and wf_port(self) and (is_tuple(breadcrumbs) or is_list(breadcrumbs)))
+    n0 = len(calls())
+    missing = value is plumpy.ports.UNSPECIFIED
     modifies(user_effects)
     ghost_update('VERDICT', self, ret)
-    ensures((ret is None or isinstance(ret, PortValidationError)) and ghost('VERDICT', self) is ret)
+    ensures('a_verdict', (ret is None or isinstance(ret, PortValidationError)) and ghost('VERDICT', self) is ret)
+    ensures('shape_is_checked_first', implies(not port_accepts_shape(self, value), ret is not None and len(calls()) == n0))
+    ensures('missing_values_skip_the_validator', implies(missing, len(calls()) == n0))
+    ensures('no_validator_no_objection', implies(port_accepts_shape(self, value) and (self._validator is None or missing), ret is None))
+    ensures('validator_decides', implies(port_accepts_shape(self, value) and self._validator is not None and not missing,
+                                         len(calls()) == n0 + 1 and calls()[n0].fn is old(self._validator)
+                                         and seq(calls()[n0].args)[0] is value
+                                         and (ret is None) == (attr(calls()[n0], 'result') is None)))
     raises(Exception, True)
+    replay('shape_is_checked_first', 'input_validation')
+    replay('no_validator_no_objection', 'input_validation')
+    replay('validator_decides', 'input_validation')
+    replay('missing_values_skip_the_validator', 'input_validation')
 
 
 @contract('plumpy.ports.PortNamespace.validate_dynamic_ports', assumed=True, dispatch='static')
@@ -54,7 +85,7 @@ def out(self, output_port, value):
     requires(isinstance(outs_ns, PortNamespace) and is_dict(outs_ns._ports) and owned(outs_ns._ports))
     declared = dhas(outs_ns._ports, output_port)
     port = dget(outs_ns._ports, output_port)
-    requires(implies(declared, isinstance(port, Port)))
+    requires(implies(declared, isinstance(port, Port) and wf_port(port)))
     modifies(user_effects, contents(self._outputs), ghost('VERDICT'))
     verdict = ghost('VERDICT', port) if declared else ghost('VERDICT', outs_ns)
     ensures('stored_only_if_accepted', verdict is None and dhas(self._outputs, output_port) and dget(self._outputs, output_port) is value)
